@@ -30,8 +30,6 @@ EXTENDS Integers, Sequences, Json, IOUtils, TLC
 
 Insts == JsonDeserialize(IOEnv.QUANT_INSTS)
 
-CONSTANT Stride      \* 1 = every raw value; n > 1 = ends +-3, centre +-3 and every n-th raw
-
 VARIABLES inst, raw
 vars == <<inst, raw>>
 
@@ -70,15 +68,8 @@ NeedsZero(i) == Centred(i) /\ i.kind # "numpy"
 -----------------------------------------------------------------------------------------
 (* The machine: one state per (instance, raw) *)
 I == Insts[inst]
-Mid(i) == i.rawMin + (i.rawMax - i.rawMin) \div 2
-Sel(i, r) == \/ Stride = 1
-             \/ (r - i.rawMin) % Stride = 0
-             \/ \E s \in {i.rawMin, i.rawMax, Mid(i)} : Abs(r - s) <= 3
-NextRaw(i, r) == LET C == {x \in (r + 1)..MinOf(r + Stride, i.rawMax) : Sel(i, x)}
-                 IN CHOOSE x \in C : \A y \in C : x <= y
-
 Init == inst \in DOMAIN Insts /\ raw = Insts[inst].rawMin
-Step == raw < I.rawMax /\ raw' = NextRaw(I, raw) /\ UNCHANGED inst
+Step == raw < I.rawMax /\ raw' = raw + 1 /\ UNCHANGED inst
 Next == Step
 Spec == Init /\ [][Next]_vars
 
